@@ -333,7 +333,7 @@ func buildCursor(c *core.Ctx, typ string, n int, exact bool) (mk func() *cursor)
 		churn(func(v int) { l.Insert(r.Range(0, l.Size()), v) }, func() { l.Remove(r.Range(0, l.Size())) }, l.Size)
 		return func() *cursor { it := l.Iterator(); return idxCursor[int](c, typ, &it, l.Values()) }
 	case "TreeSet":
-		cm := intCmps[r.Intn(2)]
+		cm := intCmps[[]int{0, 1, 3}[r.Intn(3)]]
 		s := treeset.NewWith[int](cm.F)
 		churn(func(v int) { s.Add(nextKey()) }, func() {
 			if vs := s.Values(); len(vs) > 0 {
@@ -386,11 +386,11 @@ func buildCursor(c *core.Ctx, typ string, n int, exact bool) (mk func() *cursor)
 		}
 		return func() *cursor { return idxCursor[int](c, typ, q.Iterator(), q.Values()) }
 	case "PriorityQueue":
-		q := priorityqueue.NewWith[int](intCmps[r.Intn(3)].F)
+		q := priorityqueue.NewWith[int](intCmps[r.Intn(4)].F)
 		churn(func(v int) { q.Enqueue(v) }, func() { q.Dequeue() }, q.Size)
 		return func() *cursor { return idxCursor[int](c, typ, q.Iterator(), q.Values()) }
 	case "BinaryHeap":
-		h := binaryheap.NewWith[int](intCmps[r.Intn(3)].F)
+		h := binaryheap.NewWith[int](intCmps[r.Intn(4)].F)
 		churn(func(v int) { h.Push(v) }, func() { h.Pop() }, h.Size)
 		return func() *cursor { return idxCursor[int](c, typ, h.Iterator(), h.Values()) }
 	}
@@ -410,7 +410,7 @@ func buildCursor(c *core.Ctx, typ string, n int, exact bool) (mk func() *cursor)
 		}
 		return keys[r.Intn(len(keys))], true
 	}
-	cm := intCmps[r.Intn(2)]
+	cm := intCmps[[]int{0, 1, 3}[r.Intn(3)]]
 	switch typ {
 	case "TreeMap":
 		m := treemap.NewWith[int, int](cm.F)
@@ -429,7 +429,7 @@ func buildCursor(c *core.Ctx, typ string, n int, exact bool) (mk func() *cursor)
 		}, m.Size)
 		return func() *cursor { ks := m.Keys(); return keyCursor[int, int](c, typ, m.Iterator(), ks, vals(ks, m.Get)) }
 	case "TreeBidiMap":
-		m := treebidimap.NewWith[int, int](cm.F, intCmps[r.Intn(2)].F)
+		m := treebidimap.NewWith[int, int](cm.F, intCmps[[]int{0, 1, 3}[r.Intn(3)]].F)
 		churn(func(int) { m.Put(nextKey(), nv()) }, func() {
 			if k, ok := rmKey(m.Keys()); ok {
 				m.Remove(k)
